@@ -182,6 +182,32 @@ def gen_reply(rng, name, qtype, qclass, k4=False, big=False):
     return bytes(e.b)
 
 
+def size_boundary_cases(rng, spec, idx0):
+    """C09/C13: responses whose packed size lands exactly on / just beyond the 65535-octet frame limit.
+    The reply is question + ONE root-owned record of an unknown type (nothing to compress), so the response the
+    proxy packs has a size we control: 12 + question + (11 + L) [+ 11 when the query had an OPT].  Sizes above 65535
+    must come back truncated (TC, record dropped) with a correct 2-octet prefix on stream listeners."""
+    out = []
+    idx = idx0
+    for target, with_opt in ((65534, 1), (65535, 1), (65536, 1), (65537, 1), (65546, 1), (65534, 0), (65535, 0)):
+        ls = ["tcp"] + rng.sample(["gnet", "tls", "quic", "http-post", "fasthttp-post", "https-post"], 3)
+        for l in ls:
+            idx += 1
+            labels = [b"sz%d" % idx, rng.choice(VOCAB)]
+            name = gens.raw_name(labels)
+            qtype, qclass = rng.choice([1, 16, 255]), idx % 65536
+            question = name + b"\0" + struct.pack(">HH", qtype, qclass)
+            q = struct.pack(">HHHHHH", rng.randrange(65536), 0x0100, 1, 0, 0, with_opt) + question
+            if with_opt:
+                q += opt_rr(rng, size=rng.choice([512, 1232, 65535]), options=0)
+            L = target - 12 - len(question) - 11 - (11 if with_opt else 0)
+            reply = struct.pack(">HHHHHH", 0, 0x8180, 1, 1, 0, 0) + question
+            reply += b"\0" + struct.pack(">HHIH", 65280, 1, 60, L) + bytes(rng.randrange(256) for _ in range(L))
+            assert len(reply) <= 65535
+            out.append("z%d cfg=%s l=%s client=- q=%s up=reply:%s" % (idx, spec, l, gens.hx(q), gens.hx(reply)))
+    return out, idx
+
+
 def boundary_cfgs():
     """hand-picked configurations (the boundary catalogue of the rule logic); each gets its share of queries"""
     ex = [b"example", b"com"]
@@ -251,6 +277,10 @@ def handle_gen(rng, tier):
                 delayed_budget -= 1
                 tag = "s"
             out.append("%s%d cfg=%s l=%s client=%s q=%s up=%s%s" % (tag, idx, spec, l, client, gens.hx(q), up, dl))
+        if ci == 1:
+            # boundary configuration #1 forwards every name and starts every listener kind: frame-size boundary
+            zs, idx = size_boundary_cases(rng, spec, idx)
+            out.extend(zs)
     # put the slow (6 s) cases first so that they overlap with everything else
     out.sort(key=lambda s: (not s.startswith("s"),))
     return out
@@ -366,7 +396,99 @@ PROPS["C12"] = dict(
                "all inputs; the restriction to at most one OPT per message (in the additional section) is the property's own.")
 
 # C09 also runs the handle kind: the listeners' size limits are observed on the bytes real clients receive
+def cachedseq_gen(rng, tier):
+    """C12 on a caching proxy: (a) an upstream reply WITH an OPT (options, DO, big size) is cached; later hits from clients
+    with and without EDNS must get exactly the proxy's own OPT / none; (b) a hit in the last quarter of a 4 s lifetime
+    starts a prefetch whose upstream query must carry the OPT/ECS of the client whose hit started it (other DoH clients
+    are active around it)."""
+    out = []
+    n = budget(tier, 10, 120)
+    for i in range(n):
+        ecs = rng.choice([1, 1, 0])
+        cfg = "U=%s;E=%d;S=-;R=-:0:0:0;C=4096" % (rng.choice(["u", "t"]), ecs)
+        labels = [b"cs%d" % i, rng.choice(VOCAB), b"test"]
+        name = gens.raw_name(labels)
+        qtype, qclass = rng.choice([1, 28, 16]), 1
+        question = name + b"\0" + struct.pack(">HH", qtype, qclass)
+
+        def query(edns):
+            q = struct.pack(">HHHHHH", rng.randrange(65536), 0x0100, 1, 0, 0, 1 if edns else 0) + question
+            return q + (opt_rr(rng, size=rng.choice([512, 1232, 4096])) if edns else b"")
+
+        prefetch = i % 2 == 1
+        ttl = 4 if prefetch else 60
+        rr = b"\xc0\x0c" + struct.pack(">HHIH", qtype, qclass, ttl, 4) + bytes(rng.randrange(256) for _ in range(4))
+        uopt = b"\0" + struct.pack(">HHIH", 41, 4096, 0x8000, 12) + struct.pack(">HH", 10, 8) + bytes(rng.randrange(256) for _ in range(8))
+        reply = struct.pack(">HHHHHH", 0, 0x8180, 1, 2, 0, 1) + question + rr + rr + uopt
+        clients = ["192.0.2.%d" % rng.randrange(1, 255), "2001:db8:%x::1" % rng.randrange(1, 65536), "198.51.100.%d" % rng.randrange(1, 255)]
+        ls = ["http-post", "fasthttp-post", "http-get", "fasthttp-get"]
+        steps = []
+        if prefetch:
+            # miss by client A (EDNS on), hit in the last quarter by client B, noise from client C in between
+            a, b_, c = rng.sample(clients, 3)
+            steps.append("%s/%s/%s/0" % (rng.choice(ls), a, gens.hx(query(True))))
+            steps.append("%s/%s/%s/3300" % (rng.choice(ls), b_, gens.hx(query(rng.random() < 0.5))))
+            steps.append("%s/%s/%s/0" % (rng.choice(ls), c, gens.hx(query(rng.random() < 0.5))))
+            steps.append("%s/%s/%s/20" % (rng.choice(ls), c, gens.hx(query(rng.random() < 0.5))))
+        else:
+            first_edns = rng.random() < 0.7
+            steps.append("%s/%s/%s/0" % (rng.choice(ls + ["udp", "tcp"]), rng.choice(clients), gens.hx(query(first_edns))))
+            steps.append("%s/%s/%s/30" % (rng.choice(ls + ["udp", "tcp"]), rng.choice(clients), gens.hx(query(False))))
+            steps.append("%s/%s/%s/0" % (rng.choice(ls + ["udp", "tcp"]), rng.choice(clients), gens.hx(query(True))))
+        out.append("cs%d cfg=%s steps=%s up=reply:%s" % (i, cfg, ";".join(steps), gens.hx(reply)))
+    # prefetching cases first: they take 3.7 s each and overlap
+    out.sort(key=lambda s: "/3300" not in s)
+    return out
+
+
+def cachedseq_oracle(line, res):
+    f = gens.fields(res)
+    n = int(f.get("n", "0") or 0)
+    for i in range(1, n + 1):
+        r = f.get("r%d" % i, "-")
+        if r.startswith("!") or r == "-":
+            return "step %d got no single DNS response (%s)" % (i, r)
+    if f.get("upq", "-") == "-":
+        return "no upstream query observed for a cache miss"
+    return None
+
+
+def cachedseq_respec(line, res):
+    if not res.startswith("n="):
+        return None
+    return line + " " + " ".join(p for p in res.split() if not p.startswith("n="))
+
+
+PROPS["C12"]["kinds"].append(dict(name="cachedseq", gen=cachedseq_gen, oracle=cachedseq_oracle, model=False,
+                                  respec=cachedseq_respec, respec_kind="cachedseqspec", respec_all=True,
+                                  spec_relevant=spec_for(["c12-", "c03-", "c10-"]), timeout=600, shards=2,
+                                  classify=lambda l, r: "prefetch" if "/3300" in l else "cached"))
+PROPS["C12"]["rule"] += ("; cachedseq: the same question asked repeatedly on a CACHING proxy (upstream reply with OPT+cookie; EDNS and "
+                         "non-EDNS clients; a hit in the last quarter of the lifetime that starts a prefetch while other DoH "
+                         "clients are active): every response and every upstream query (the prefetch's included) is judged by "
+                         "the model's spec_response / spec_upstream (oracle only: the router model has no cache)")
 PROPS["C09"]["kinds"].append(handle_kind(["c09-"]))
+
+
+def frame_gen(rng, tier):
+    """C13: the 2-octet prefix of responses at and beyond the 65535-octet limit, and of large relayed replies, on every
+    stream listener (tcp, gnet, tls, quic) — the handle kind restricted to the frame-size boundary"""
+    cfg = tuple(boundary_cfgs()[1]) + (True,)
+    spec = cfg_spec(cfg)
+    out, idx = size_boundary_cases(rng, spec, 50000)
+    out = [c for c in out if " l=tcp " in c or " l=gnet " in c or " l=tls " in c or " l=quic " in c]
+    for _ in range(budget(tier, 12, 200)):
+        idx += 1
+        q, name, qtype, qclass = gen_query(rng, cfg, idx)
+        l = rng.choice(["tcp", "gnet", "tls", "quic"])
+        out.append("g%d cfg=%s l=%s client=- q=%s up=reply:%s" % (idx, spec, l, gens.hx(q),
+                                                                 gens.hx(gen_reply(rng, name, qtype, qclass, big=True))))
+    return out
+
+
+PROPS["C13"]["kinds"].append(dict(handle_kind(["c09-", "c03-undecodable"]), gen=frame_gen))
+PROPS["C13"]["rule"] += ("; handle (frame-size boundary): responses packed to 65534..65546 octets and large relayed replies on "
+                         "tcp/gnet/tls/quic, prefix and body compared with the model octet for octet")
 PROPS["C09"]["rule"] += ("; " + ROUTER_RULE)
 
 
